@@ -180,7 +180,10 @@ class AbsEval(ConstEval):
             if isinstance(base, Res):
                 if isinstance(e.slice, ast.Slice):
                     return Res("slice", base, self.eval(e.slice.lower, env, mod) if e.slice.lower else None, self.eval(e.slice.upper, env, mod) if e.slice.upper else None)
-                return Res("sub", base, self.eval(e.slice, env, mod))
+                k = self.eval(e.slice, env, mod)
+                if isinstance(k, slice) and k.step is None:
+                    return Res("slice", base, k.start, k.stop)
+                return Res("sub", base, k)
             if not isinstance(e.slice, ast.Slice) and isinstance(base, (list, tuple, dict, str, bytes)):
                 k = self.eval(e.slice, env, mod)
                 if isinstance(k, Res) and isinstance(base, dict):
@@ -199,6 +202,12 @@ class AbsEval(ConstEval):
                     raise AbsRaise("TypeError", str(ex))
             if base is None:
                 raise AbsRaise("TypeError", "None is not subscriptable")
+            if isinstance(base, AObj) and base.pytype == "Container" and not isinstance(e.slice, ast.Slice):
+                k = self.eval(e.slice, env, mod)
+                if isinstance(k, str):
+                    if k in base.attrs:
+                        return base.attrs[k]
+                    raise AbsRaise("KeyError", k)
             if isinstance(base, AObj) and base.pytype == "Match" and not isinstance(e.slice, ast.Slice):
                 return base.attrs["group"](self.eval(e.slice, env, mod))
             if isinstance(base, AObj) and getattr(base, "fields", None) and not isinstance(e.slice, ast.Slice):
@@ -264,7 +273,7 @@ class AbsEval(ConstEval):
         # calls through values: table[key](x), (f or g)(x), a local holding a function
         if not isinstance(e.func, (ast.Name, ast.Attribute)) or (isinstance(e.func, ast.Name) and e.func.id in env and not isinstance(env[e.func.id], Opaque)):
             f = self.eval(e.func, env, mod)
-            if isinstance(f, FuncRef) or (isinstance(f, Opaque) and f.what == "lambda") or (isinstance(f, tuple) and f and f[0] == "boundfunc") or f in (float, int, str, bool, len, abs, bytes):
+            if isinstance(f, FuncRef) or (isinstance(f, Opaque) and f.what == "lambda") or (isinstance(f, tuple) and f and f[0] in ("boundfunc", "getter")) or f in (float, int, str, bool, len, abs, bytes):
                 if (f.mod, f.node.name) in self.func_hooks if isinstance(f, FuncRef) else False:
                     return self.call_func(f, self.eval_args(e, env, mod), {k.arg: self.eval(k.value, env, mod) for k in e.keywords if k.arg})
                 return self.apply_value(f, self.eval_args(e, env, mod), mod)
@@ -274,10 +283,24 @@ class AbsEval(ConstEval):
             return None
         for suffix, h in self.hooks.items():
             if ftxt == suffix or ftxt.endswith("." + suffix):
-                args = [self.eval(a, env, mod) for a in e.args]
+                args = self.eval_args(e, env, mod)
                 kw = {k.arg: self.eval(k.value, env, mod) for k in e.keywords if k.arg}
                 return h(args, kw)
         name = ftxt.split(".")[-1]
+        if name in ("attrgetter", "itemgetter") and e.args and not e.keywords and (not isinstance(e.func, ast.Name) or e.func.id not in env or isinstance(env[e.func.id], Opaque)):
+            keys = self.eval_args(e, env, mod)
+            if all(isinstance(k, (str, int)) for k in keys):
+                return ("getter", name, tuple(keys))
+        if ftxt == "dict.fromkeys" and 1 <= len(e.args) <= 2 and "dict" not in env:
+            keys = self.eval(e.args[0], env, mod)
+            val = self.eval(e.args[1], env, mod) if len(e.args) == 2 else None
+            if isinstance(keys, (list, tuple, str, dict, set, frozenset, range)):
+                return {k: val for k in keys}
+            raise NotConstant("dict.fromkeys over a non-concrete iterable")
+        if ftxt in ("datetime.strptime", "datetime.datetime.strptime") and len(e.args) == 2 and not e.keywords:
+            args = self.eval_args(e, env, mod)
+            if any(is_abs(a) for a in args) and isinstance(args[1], str):
+                return _typed(Res("strptime", args[0], args[1]), "datetime")
         if name == "reduce" and 2 <= len(e.args) <= 3:
             f = self.eval(e.args[0], env, mod)
             items = self.eval(e.args[1], env, mod)
@@ -296,7 +319,7 @@ class AbsEval(ConstEval):
         if isinstance(e.func, ast.Attribute) and isinstance(e.func.value, ast.Call) and isinstance(e.func.value.func, ast.Name) and e.func.value.func.id == "super" and not e.func.value.args:
             # super().m(...): the next definition of m after the object's own class in the repository MRO (external bases: no effect)
             obj = env.get("self")
-            args = [self.eval(a, env, mod) for a in e.args]
+            args = self.eval_args(e, env, mod)
             if isinstance(obj, AObj) and obj.cls_key is not None:
                 for k in self.M.mro(obj.cls_key)[1:]:
                     m = self.M.classes[k].methods.get(e.func.attr) if k in self.M.classes else None
@@ -310,15 +333,15 @@ class AbsEval(ConstEval):
                 cm, cn = base.what[6:].split(".", 1)
                 fm = self.M.find_method((cm, cn), e.func.attr)
                 if fm is not None and fm.kind in ("classmethod", "static", "method"):
-                    args = [self.eval(a, env, mod) for a in e.args]
+                    args = self.eval_args(e, env, mod)
                     kw = {k.arg: self.eval(k.value, env, mod) for k in e.keywords if k.arg}
                     first = [base] if fm.kind == "classmethod" else []
                     return self.call_func(FuncRef(fm.mod, fm.node), first + args, kw)
             if e.func.attr in ("match", "fullmatch", "search") and isinstance(base, Opaque):
                 pat = self.regex_of(base, mod)
                 if pat is not None:
-                    return self.regex_call(pat, e.func.attr, [self.eval(a, env, mod) for a in e.args])
-            args = [self.eval(a, env, mod) for a in e.args]
+                    return self.regex_call(pat, e.func.attr, self.eval_args(e, env, mod))
+            args = self.eval_args(e, env, mod)
             if isinstance(base, AObj) and e.func.attr == "_replace" and getattr(base, "fields", None):
                 kw = {k.arg: self.eval(k.value, env, mod) for k in e.keywords if k.arg}
                 new = AObj(base.pytype, dict(base.attrs), name=base.name, cls_key=base.cls_key)
@@ -435,6 +458,8 @@ class AbsEval(ConstEval):
         if not args or not isinstance(args[0], str) or len(args) > 3 or not all(isinstance(a, int) and not isinstance(a, bool) for a in args[1:]):
             if args and (args[0] is None or isinstance(args[0], (int, float, AObj))):
                 raise AbsRaise("TypeError", "expected string")
+            if args and isinstance(args[0], Res):
+                raise SymbolicBranch(Res("regex-" + method, pattern, args[0]), None)
             raise NotConstant("regex applied to a non-concrete string")
         m = getattr(re.compile(pattern), method)(*args)
         if m is None:
@@ -699,6 +724,17 @@ class AbsEval(ConstEval):
             return self.eval(lam.body, dict(zip(params, args)), f.mod or mod)
         if isinstance(f, tuple) and f and f[0] == "boundfunc":
             return self.call_func(FuncRef(f[2].mod, f[2].node), [f[1]] + list(args))
+        if isinstance(f, tuple) and len(f) == 3 and f[0] == "getter" and len(args) == 1:
+            outs = []
+            for k in f[2]:
+                if f[1] == "attrgetter":
+                    cur = args[0]
+                    for part in str(k).split("."):
+                        cur = self.eval(ast.Attribute(value=ast.Name(id="__o", ctx=ast.Load()), attr=part, ctx=ast.Load()), {"__o": cur}, mod)
+                    outs.append(cur)
+                else:
+                    outs.append(self.eval(ast.Subscript(value=ast.Name(id="__o", ctx=ast.Load()), slice=ast.Constant(k), ctx=ast.Load()), {"__o": args[0]}, mod))
+            return outs[0] if len(outs) == 1 else tuple(outs)
         if callable(f) and f in (float, int, str, bool, len, abs, bytes):
             r = self.builtin(f.__name__, list(args), {}, None)
             if r is not NotImplemented:
@@ -717,6 +753,8 @@ class AbsEval(ConstEval):
                 loc = dict(zip(params, env.get("__args__", [])))
                 loc.update({k: v for k, v in env.items() if k != "__args__"})
                 return ("value", self.eval(node.body, loc, mod))
+            if isinstance(node, (ast.FunctionDef, ast.AsyncFunctionDef)):
+                return ("value", self.call_func(FuncRef(mod, node), env.get("__args__", [])))
             if isinstance(node, ast.Name):
                 f = self.eval(node, {}, mod)
                 if isinstance(f, FuncRef):
